@@ -27,7 +27,6 @@
 use std::collections::{BTreeMap, BTreeSet};
 use std::path::{Path, PathBuf};
 use std::sync::Arc;
-use std::time::Duration;
 
 use axum::{
     Json, Router,
@@ -39,9 +38,7 @@ use axum::{
 use axum_test::TestServer;
 use tokio::sync::RwLock;
 
-use mithril_aggregator_client::AggregatorHttpClient;
 use mithril_cardano_node_chain::{
-    chain_importer::CardanoChainDataImporter,
     entities::ScannedBlock,
     test::double::{DumbBlockScanner, FakeChainObserver},
 };
@@ -51,45 +48,27 @@ use mithril_cardano_node_internal_database::{
 };
 use mithril_common::entities::CardanoDbBeacon;
 use mithril_common::{
-    api_version::APIVersionProvider,
-    crypto_helper::{KesSigner, KesSignerStandard, ProtocolAggregateVerificationKeyForConcatenation, ProtocolInitializer},
+    crypto_helper::{ProtocolAggregateVerificationKeyForConcatenation, ProtocolInitializer},
     entities::{
         BlockNumber, ChainPoint, Epoch, PartyId, ProtocolMessage, ProtocolMessagePartKey, ProtocolParameters, SignedEntityType,
         SignedEntityTypeDiscriminants, Signer, SignerWithStake, SingleSignature, SingleSignatureAuthenticationStatus, SlotNumber,
-        SupportedEra, TimePoint,
+        TimePoint,
     },
     messages::{
         EpochSettingsMessage, ProtocolConfigurationMessage, RegisterSignatureMessageHttp, RegisterSignerMessage,
         SignedEntityTypeMessage, SignerMessagePart,
     },
     protocol::{MultiSigner, SignerBuilder},
-    signable_builder::{
-        CardanoBlocksTransactionsSignableBuilder, CardanoStakeDistributionSignableBuilder, CardanoTransactionsSignableBuilder,
-        MithrilSignableBuilderService, MithrilStakeDistributionSignableBuilder, SignableBuilder, SignableBuilderServiceDependencies,
-    },
+    signable_builder::SignableBuilder,
     test::builder::{MithrilFixture, MithrilFixtureBuilder},
-    test::double::Dummy,
 };
-use mithril_era::{EraChecker, EraMarker, EraReader, adapters::EraReaderDummyAdapter};
-use mithril_persistence::store::StakeStorer;
-use mithril_protocol_config::{
-    http::HttpMithrilNetworkConfigurationProvider,
-    model::{MithrilNetworkConfigurationForEpoch, SignedEntityTypeConfiguration},
-};
-use mithril_signed_entity_lock::SignedEntityTypeLock;
-use mithril_signed_entity_preloader::{CardanoTransactionsPreloader, CardanoTransactionsPreloaderActivation};
-use mithril_signer::{
-    Configuration, MetricsService, SignerRunner, SignerState, StateMachine,
-    database::repository::{ProtocolInitializerRepository, SignedBeaconRepository, SignerCardanoChainDataRepository, StakePoolStore},
-    dependency_injection::{DependenciesBuilder, SignerDependencyContainer},
-    services::{
-        EpochService, MithrilEpochService, MithrilSingleSigner, SignerCertifierService, SignerChainDataImporter, SignerSignableSeedBuilder,
-        SignerSignedEntityConfigProvider, SignerUpkeepService,
-    },
-    store::{MKTreeStoreSqlite, ProtocolInitializerStorer},
-};
+use mithril_protocol_config::model::{MithrilNetworkConfigurationForEpoch, SignedEntityTypeConfiguration};
+use mithril_signer::{SignerState, services::EpochService};
 use mithril_ticker::{MithrilTickerService, TickerService};
 use vh_core::{Args, ChaCha20Rng, Trace, Value, below, json, read_ndjson, rng};
+
+#[path = "../signerkit.rs"]
+mod signerkit;
 
 const NSIGNERS: usize = 3; // fixture party 0 is the signer under test, 1.. are the other pool operators
 
@@ -98,9 +77,7 @@ const RECORDING_OFFSET: u64 = 1; // a registration made during epoch e is record
 const RETRIEVAL_BACK: u64 = 1; //   the signers of epoch e are those recorded for e - 1
 //                                  the next signers of epoch e are those recorded for e
 
-fn logger() -> slog::Logger {
-    slog::Logger::root(slog::Discard, slog::o!())
-}
+use signerkit::logger;
 
 /// the Cardano stake distribution in force during chain epoch `x` (varies with the epoch, so that the
 /// epoch under which a stake distribution is stored / retrieved matters)
@@ -335,13 +312,7 @@ struct World {
     message_cache: BTreeMap<(String, u64), Option<String>>,
 }
 
-/// everything the signer process owns
-struct SignerProc {
-    state_machine: StateMachine,
-    epoch_service: Arc<RwLock<MithrilEpochService>>,
-    protocol_initializer_store: Arc<dyn ProtocolInitializerStorer>,
-    stake_store: Arc<dyn StakeStorer>,
-}
+use signerkit::SignerProc;
 
 fn blocks(range: std::ops::RangeInclusive<u64>) -> Vec<ScannedBlock> {
     range
@@ -411,125 +382,18 @@ impl World {
         }
     }
 
-    /// (a copy of the repository's `StateMachineTester::init`, minus everything that must survive a restart)
+    /// the signer process (wiring shared with harness/vh-system: ../signerkit.rs), on the sqlite files of the work directory
     async fn start_signer(&self) -> SignerProc {
-        let config = Configuration {
-            db_directory: self.dir.join("db"),
-            data_stores_directory: self.dir.join("stores"),
-            ..Configuration::new_sample(&self.me)
-        };
-        let logger = logger();
-        let dependencies_builder = DependenciesBuilder::new(&config, logger.clone());
-        let sqlite_connection = Arc::new(dependencies_builder.build_main_sqlite_connection("signer.db").await.unwrap());
-        let sqlite_connection_cardano_transaction_pool =
-            dependencies_builder.build_cardano_tx_sqlite_connection_pool("cardano_tx.db", 1).await.map(Arc::new).unwrap();
-        let chain_observer = self.chain.clone();
-        let ticker_service = self.ticker.clone();
-        let digester = Arc::new(DumbImmutableDigester::default().with_digest("DIGEST"));
-        let protocol_initializer_store =
-            Arc::new(ProtocolInitializerRepository::new(sqlite_connection.clone(), config.store_retention_limit.map(|l| l as u64)));
-        let stake_store = Arc::new(StakePoolStore::new(sqlite_connection.clone(), config.store_retention_limit.map(|l| l as u64)));
-        let era_reader_adapter =
-            Arc::new(EraReaderDummyAdapter::from_markers(vec![EraMarker { name: SupportedEra::dummy().to_string(), epoch: Some(Epoch(0)) }]));
-        let era_reader = Arc::new(EraReader::new(era_reader_adapter.clone()));
-        let era_epoch_token = era_reader.read_era_epoch_token(ticker_service.get_current_epoch().await.unwrap()).await.unwrap();
-        let era_checker =
-            Arc::new(EraChecker::new(era_epoch_token.get_current_supported_era().unwrap(), era_epoch_token.get_current_epoch()));
-        let api_version_provider = Arc::new(APIVersionProvider::new(era_checker.clone()));
-        let mithril_stake_distribution_signable_builder = Arc::new(MithrilStakeDistributionSignableBuilder::default());
-        let chain_data_store = Arc::new(SignerCardanoChainDataRepository::new(sqlite_connection_cardano_transaction_pool.clone()));
-        let transactions_importer = Arc::new(SignerChainDataImporter::new(Arc::new(CardanoChainDataImporter::new(
-            self.block_scanner.clone(),
-            chain_data_store.clone(),
-            logger.clone(),
-        ))));
-        let block_range_root_retriever = chain_data_store.clone();
-        let cardano_transactions_builder = Arc::new(CardanoTransactionsSignableBuilder::<MKTreeStoreSqlite>::new(
-            transactions_importer.clone(),
-            block_range_root_retriever.clone(),
-        ));
-        let cardano_blocks_transactions_builder = Arc::new(CardanoBlocksTransactionsSignableBuilder::<MKTreeStoreSqlite>::new(
-            transactions_importer.clone(),
-            block_range_root_retriever,
-        ));
-        let cardano_stake_distribution_builder = Arc::new(CardanoStakeDistributionSignableBuilder::new(stake_store.clone()));
-        let cardano_database_signable_builder = Arc::new(CardanoDatabaseSignableBuilder::new(digester.clone(), Path::new(""), logger.clone()));
-        let epoch_service = Arc::new(RwLock::new(MithrilEpochService::new(
-            era_checker.clone(),
-            stake_store.clone(),
-            protocol_initializer_store.clone(),
-            logger.clone(),
-        )));
-        let epoch_service_handle = epoch_service.clone();
-        let single_signer =
-            Arc::new(MithrilSingleSigner::new(config.party_id.to_owned().unwrap_or_default(), epoch_service.clone(), logger.clone()));
-        let signable_seed_builder_service = Arc::new(SignerSignableSeedBuilder::new(epoch_service.clone(), protocol_initializer_store.clone()));
-        let signable_builders_dependencies = SignableBuilderServiceDependencies::new(
-            mithril_stake_distribution_signable_builder,
-            cardano_transactions_builder,
-            cardano_blocks_transactions_builder,
-            cardano_stake_distribution_builder,
-            cardano_database_signable_builder,
-        );
-        let signable_builder_service =
-            Arc::new(MithrilSignableBuilderService::new(signable_seed_builder_service, signable_builders_dependencies, logger.clone()));
-        let metrics_service = Arc::new(MetricsService::new(logger.clone()).unwrap());
-        let signed_entity_type_lock = Arc::new(SignedEntityTypeLock::default());
-        let cardano_transactions_preloader = Arc::new(CardanoTransactionsPreloader::new(
-            signed_entity_type_lock.clone(),
-            transactions_importer.clone(),
-            BlockNumber(0),
-            chain_observer.clone(),
-            logger.clone(),
-            Arc::new(CardanoTransactionsPreloaderActivation::new(true)),
-        ));
-        let upkeep_service = Arc::new(SignerUpkeepService::new(
-            sqlite_connection.clone(),
-            sqlite_connection_cardano_transaction_pool,
-            signed_entity_type_lock.clone(),
-            vec![],
-            logger.clone(),
-        ));
-        let signed_beacon_repository = Arc::new(SignedBeaconRepository::new(sqlite_connection.clone(), None));
-        let aggregator_client = AggregatorHttpClient::builder(self.url.clone()).with_logger(logger.clone()).build().map(Arc::new).unwrap();
-        let network_configuration_service = Arc::new(HttpMithrilNetworkConfigurationProvider::new(aggregator_client.clone(), logger.clone()));
-        let certifier = Arc::new(SignerCertifierService::new(
-            signed_beacon_repository.clone(),
-            Arc::new(SignerSignedEntityConfigProvider::new(epoch_service.clone())),
-            signed_entity_type_lock.clone(),
-            single_signer.clone(),
-            aggregator_client.clone(),
-            logger.clone(),
-        ));
-        let kes_signer = Some(Arc::new(KesSignerStandard::new(
-            config.kes_secret_key_path.clone().unwrap(),
-            config.operational_certificate_path.clone().unwrap(),
-        )) as Arc<dyn KesSigner>);
-        let services = SignerDependencyContainer {
-            signers_registration_retriever: aggregator_client.clone(),
-            ticker_service: ticker_service.clone(),
-            chain_observer: chain_observer.clone(),
-            digester: digester.clone(),
-            protocol_initializer_store: protocol_initializer_store.clone(),
-            single_signer: single_signer.clone(),
-            stake_store: stake_store.clone(),
-            era_checker: era_checker.clone(),
-            era_reader,
-            api_version_provider,
-            signable_builder_service,
-            metrics_service: metrics_service.clone(),
-            signed_entity_type_lock: Arc::new(SignedEntityTypeLock::default()),
-            cardano_transactions_preloader,
-            upkeep_service,
-            epoch_service,
-            certifier,
-            signer_registration_publisher: aggregator_client.clone(),
-            kes_signer,
-            network_configuration_service: network_configuration_service.clone(),
-        };
-        let runner = Box::new(SignerRunner::new(config, services, logger.clone()));
-        let state_machine = StateMachine::new(SignerState::Init, runner, Duration::from_secs(5), metrics_service.clone(), logger.clone());
-        SignerProc { state_machine, epoch_service: epoch_service_handle, protocol_initializer_store, stake_store }
+        signerkit::start_signer(&signerkit::SignerWiring {
+            dir: self.dir.clone(),
+            party_id: self.me.clone(),
+            url: self.url.clone(),
+            chain: self.chain.clone(),
+            ticker: self.ticker.clone(),
+            block_scanner: self.block_scanner.clone(),
+            digester: Arc::new(DumbImmutableDigester::default().with_digest("DIGEST")),
+        })
+        .await
     }
 
     fn key_id(&mut self, vk_hex: &str) -> usize {
